@@ -256,3 +256,45 @@ func (inj *injector) deliver(from, to *cluster.SNode, tx *common.VersionedTransa
 	}
 	inj.c.Inject(from, to, buildFinalization(s), delay+time.Millisecond)
 }
+
+// place builds a validly certified snapshot of a chain with a caller-chosen
+// round and timestamp (used to probe round-structure rules). When `commit`
+// is true the injector's model adopts it as part of the head round.
+func (inj *injector) place(ch *injChain, round, ts uint64, tx *common.VersionedTransaction, commit bool) *injected {
+	if tx == nil {
+		inj.seq++
+		tx, _ = inj.c.MakeDeposit(cluster.AssetBTC, common.NewIntegerFromString("0.5"), fmt.Sprintf("inj-%d", inj.seq), 0, []int{0}, 1)
+	}
+	s := &common.Snapshot{
+		Version:     common.SnapshotVersionCommonEncoding,
+		NodeId:      ch.id,
+		RoundNumber: round,
+		References:  ch.refs.Copy(),
+		Timestamp:   ts,
+	}
+	s.AddTransaction(tx.PayloadHash())
+	s.Hash = s.PayloadHash()
+	k := inj.threshold() + inj.rng.IntN(inj.n-inj.threshold()+1)
+	pos := inj.randomSigners(k)
+	s.Signature = &crypto.CosiSignature{Signature: inj.sign(pos, s.Hash, -1), Mask: maskOf(pos)}
+	if commit {
+		ch.snaps = append(ch.snaps, &common.SnapshotWithTopologicalOrder{Snapshot: s})
+		if ts > ch.lastTime {
+			ch.lastTime = ts
+		}
+	}
+	return &injected{snap: s, tx: tx, chain: ch, applied: map[int]bool{}}
+}
+
+// span returns the earliest and latest timestamp of the model's head round.
+func (ch *injChain) span() (start, end uint64) {
+	for i, s := range ch.snaps {
+		if i == 0 || s.Timestamp < start {
+			start = s.Timestamp
+		}
+		if s.Timestamp > end {
+			end = s.Timestamp
+		}
+	}
+	return
+}
